@@ -31,6 +31,8 @@
 (* Time: a cooperative process that received WTE finishes before any 1 s time-out fires; each   *)
 (* swallowing process costs the one who waits for it one unit (`elapsed`); the parent's 5 s      *)
 (* join expires once the server has used 4 units, or when the server is blocked.                *)
+(* Stop kind "tgrace" = terminate(timeout=5, force=False): the graceful request only - no SIGTERM, no SIGKILL  *)
+(* ever follows, so a server that hangs in its exit join (orphan helper of a refused duplicate) stays for ever. *)
 (* Stop kinds: "terminate" = terminate(timeout=5, force=True); "sigterm"; "tshort" = terminate with  *)
 (* a short time-out (0.3 s): the parent's join expires while the server is still inside its `finally` *)
 (* loop, so the SIGTERM handler runs in the middle of it.  Handler and loop share `self.children`:     *)
@@ -86,10 +88,10 @@ KidsOf(h) == {k \in 1..N : kid[k] = CtxKinds[h]}
 \* `finally` walks children (index order) and then the contexts
 FinSeq == [i \in 1..(N + 3) |-> IF i <= N THEN [t |-> "kid", x |-> i] ELSE [t |-> "helper", x |-> i - N]]
 
-Init == /\ how \in {"terminate", "sigterm", "tshort"}
+Init == /\ how \in {"terminate", "sigterm", "tshort", "tgrace"}
         /\ kid \in UNION {[1..m -> KidStates] : m \in 0..MaxKids}
         /\ racer \in Racers
-        /\ how = "tshort" => racer = "none"
+        /\ how \in {"tshort", "tgrace"} => racer = "none"
         /\ ost = [k \in 1..Len(kid) |-> IF kid[k] = "finished" \/ (kid[k] = "orphan" /\ DupTerm) THEN "dead" ELSE "run"]
         /\ rep = [k \in 1..Len(kid) |-> IF kid[k] = "finished" THEN "own" ELSE "none"]
         /\ spc = (IF racer = "addr" THEN "blocked" ELSE "serving")       \* "addr": accept() of a control socket nobody connects to
@@ -100,7 +102,7 @@ Init == /\ how \in {"terminate", "sigterm", "tshort"}
         /\ rk = (IF racer = "spawned" THEN "spawned" ELSE IF racer = "appended" THEN "appended" ELSE "none")
 
 -----------------------------------------------------------------------------
-Request == /\ how \in {"terminate", "tshort"} /\ ~req /\ spc # "dead"
+Request == /\ how \in {"terminate", "tshort", "tgrace"} /\ ~req /\ spc # "dead"
            /\ req' = TRUE
            /\ UNCHANGED <<how, kid, racer, ost, rep, spc, fi, hst, hj, sig, sigused, waiting, elapsed, rk>>
 \* the racer's handshake moves on while the server is not yet stopping (S3d..S3g)
@@ -113,7 +115,7 @@ Deliver == /\ req /\ (spc = "serving" \/ (spc = "blocked" /\ sig))
            /\ spc' = "fin" /\ fi' = 1
            /\ sig' = (IF spc = "blocked" THEN FALSE ELSE sig)        \* the signal is used up aborting its own handler
            /\ UNCHANGED <<how, kid, racer, ost, rep, hst, hj, req, sigused, waiting, elapsed, rk>>
-JoinTimeout == /\ req /\ ~sigused /\ spc # "dead"
+JoinTimeout == /\ req /\ ~sigused /\ spc # "dead" /\ how # "tgrace"
                /\ spc = "blocked" \/ elapsed >= 4 \/ (spc = "exiting" /\ ExitBlocked) \/ how = "tshort"
                /\ sig' = TRUE /\ sigused' = TRUE
                /\ UNCHANGED <<how, kid, racer, ost, rep, spc, fi, hst, hj, req, waiting, elapsed, rk>>
@@ -229,6 +231,7 @@ W_NoHalfStarted  == ~(spc = "dead" /\ rk = "spawned")
 W_NoGracefulCtx  == ~(Terminal /\ \E k \in 1..N : IsCtx(kid[k]) /\ rep[k] = "WTE" /\ how = "sigterm")
 W_NoExitHang     == ~(spc = "exiting" /\ ExitBlocked)
 W_NoSignalUsedUp == ~(spc = "fin" /\ sigused /\ ~sig /\ racer = "addr")
+W_NoGracefulExit == ~(how = "tgrace" /\ spc = "dead")
 W_NoHandlerInLoop == ~(sig /\ spc = "fin" /\ how = "tshort" /\ waiting)
 W_NoForced       == ~(Terminal /\ \E k \in 1..N : kid[k] = "swallow" /\ ost[k] = "dead")
 =============================================================================
